@@ -7,11 +7,12 @@ import Ops.Metadata
 import Ops.BitCoders
 import Ops.MeshTools
 import Ops.Symbols
+import Ops.Robust
 /- Line-protocol driver of the executable model: one op per line in, one line out. -/
 open Draco
 
 def allOps : List (String × (List String → String)) :=
-  Ops.coreOps ++ Ops.codecOps ++ Ops.transformOps ++ Ops.quantOps ++ Ops.cornerTableOps ++ Ops.metadataOps ++ Ops.bitCoderOps ++ Ops.meshToolOps ++ Ops.symbolOps
+  Ops.coreOps ++ Ops.codecOps ++ Ops.transformOps ++ Ops.quantOps ++ Ops.cornerTableOps ++ Ops.metadataOps ++ Ops.bitCoderOps ++ Ops.meshToolOps ++ Ops.symbolOps ++ Ops.robustOps
 
 def dispatch (line : String) : String :=
   match (line.trimAscii.toString.splitOn " ").filter (· ≠ "") with
